@@ -378,7 +378,93 @@ def evaluate(inp):
                   "visits": [e[1] for e in logs[0][0] if e[0] == "visit"]}
 
 
+def interpreter_guard_failure(inp):
+    """{"real_guards": {"n0": int, "m0": int}}: the REAL NumpyInterpreter on a hand-written phase in which the same guard
+    expression stands on two statements and a statement between them changes the variable it reads.  A statement must take
+    effect exactly if its guard holds at the moment it is visited (guards are evaluated per statement, not per expression)."""
+    from dagrt.exec_numpy import NumpyInterpreter
+    from pymbolic.primitives import Comparison, Sum
+    cfg = inp["real_guards"]
+    n, m = Variable("<state>n"), Variable("<state>m")
+    gn, gm = Comparison(n, ">", 0), Comparison(m, ">", 0)
+
+    def asg(i, name, expr, deps, cond=True):
+        return lang.Assign(assignee=name, assignee_subscript=(), expression=expr, condition=cond, id=i, depends_on=frozenset(deps))
+    stmts = [asg("s1", "<state>a", Sum((Variable("<state>a"), 1)), [], gn), asg("s2", "<state>n", Sum((n, -1)), ["s1"]),
+             asg("s3", "<state>b", Sum((Variable("<state>b"), 1)), ["s2"], gn), asg("s4", "<state>n", Sum((n, 2)), ["s3"]),
+             asg("s5", "<state>c", Sum((Variable("<state>c"), 1)), ["s4"], gn),
+             asg("t1", "<state>d", Sum((Variable("<state>d"), 1)), [], gm), asg("t2", "<state>m", Sum((m, 1)), ["t1"]),
+             asg("t3", "<state>e", Sum((Variable("<state>e"), 1)), ["t2"], gm)]
+    if cfg.get("reverse"):
+        stmts.reverse()
+    code = lang.DAGCode.from_phases_list([lang.ExecutionPhase("ph", "ph", stmts)], "ph")
+    it = NumpyInterpreter(code, function_map={})
+    st = {"n": cfg["n0"], "m": cfg["m0"], "a": 0, "b": 0, "c": 0, "d": 0, "e": 0}
+    it.set_up(t_start=0.0, dt_start=1.0, context=dict(st))
+    want = dict(st)
+    for _ in range(int(cfg.get("steps", 2))):
+        for _ev in it.run_single_step():
+            pass
+        # program order = the only admissible order of each chain
+        if want["n"] > 0:
+            want["a"] += 1
+        want["n"] -= 1
+        if want["n"] > 0:
+            want["b"] += 1
+        want["n"] += 2
+        if want["n"] > 0:
+            want["c"] += 1
+        if want["m"] > 0:
+            want["d"] += 1
+        want["m"] += 1
+        if want["m"] > 0:
+            want["e"] += 1
+        got = {k: it.context["<state>" + k] for k in want}
+        if got != want:
+            return "real interpreter, guards re-evaluated per statement: state %s, expected %s" % (got, want)
+    return None
+
+
+def interleaved_interpreters_failure(inp):
+    """{"interleave": k}: two REAL NumpyInterpreters built from the SAME DAGCode object; the first is suspended at its k-th
+    yielded event while the second runs a whole step, then the first is resumed.  Each must run every statement of its own
+    step once, after its dependencies (a stepper's plan is its own)."""
+    from dagrt.exec_numpy import NumpyInterpreter
+    from pymbolic.primitives import Sum
+    y = Variable("<state>y")
+
+    def inc(i, deps):
+        return lang.Assign(assignee="<state>y", assignee_subscript=(), expression=Sum((y, 1)), condition=True, id=i,
+                           depends_on=frozenset(deps))
+
+    def yld(i, deps):
+        return lang.YieldState(expression=y, component_id="y", time=0, time_id=i, condition=True, id=i, depends_on=frozenset(deps))
+    stmts = [inc("a", []), yld("y1", ["a"]), inc("b", ["y1"]), yld("y2", ["b"]), inc("c", ["y2"])]
+    code = lang.DAGCode.from_phases_list([lang.ExecutionPhase("ph", "ph", stmts)], "ph")
+    its = [NumpyInterpreter(code, function_map={}) for _ in range(2)]
+    for it in its:
+        it.set_up(t_start=0.0, dt_start=1.0, context={"y": 0})
+    g0 = its[0].run_single_step()
+    seen0 = []
+    for _ in range(int(inp["interleave"])):
+        seen0.append(next(g0))
+    ev1 = list(its[1].run_single_step())
+    seen0 += list(g0)
+    got = [it.context["<state>y"] for it in its]
+    ids = [[getattr(e, "time_id", None) for e in evs if hasattr(e, "time_id")] for evs in (seen0, ev1)]
+    if got != [3, 3] or ids != [["y1", "y2"], ["y1", "y2"]]:
+        return ("two interpreters on one DAGCode, the first suspended after %d event(s): <state>y = %s (expected [3, 3]), yields %s"
+                % (inp["interleave"], got, ids))
+    return None
+
+
 def replay(inp):
+    if "interleave" in inp:
+        d = interleaved_interpreters_failure(inp)
+        return {"fails": d is not None, "detail": d}
+    if "real_guards" in inp:
+        d = interpreter_guard_failure(inp)
+        return {"fails": d is not None, "detail": d}
     try:
         viol, info = evaluate(inp)
     except ValueError as ex:
@@ -579,6 +665,20 @@ def bounded(payload):
             else:
                 fp_fail.append(rec)
 
+    for n0, m0, rev in itertools.product((1, 0, 2, -1), (0, 1, -1), (False, True)):
+        inp = {"real_guards": {"n0": n0, "m0": m0, "reverse": rev, "steps": 2}}
+        evals += 1
+        parts["real_interpreter_repeated_guard_programs"] = parts.get("real_interpreter_repeated_guard_programs", 0) + 1
+        d = interpreter_guard_failure(inp)
+        if d:
+            new_fail.append({"oracle": "guard", "input": inp, "detail": d, "fingerprint": None})
+    for k_ in (0, 1, 2):
+        inp = {"interleave": k_}
+        evals += 1
+        parts["interleaved_interpreters_on_one_code"] = parts.get("interleaved_interpreters_on_one_code", 0) + 1
+        d = interleaved_interpreters_failure(inp)
+        if d:
+            new_fail.append({"oracle": "all-visited", "input": inp, "detail": d, "fingerprint": None})
     for src, inp in exhaustive_inputs(nmax_exh):
         run(inp, src)
     for _ in range(nrand):
